@@ -4,7 +4,7 @@
    otto's own array code (C08/Model.v, C08/Sort.v).  The correspondence run
    ties both to the interpreter built from /repo on every generated history. *)
 From Coq Require Import ZArith List Bool.
-From Otto Require Import Common.Double C08.Spec C08.Model C08.Sort C08.Proofs C08.Invariant C08.Names C08.Refine.
+From Otto Require Import Common.Double C08.Spec C08.Model C08.Sort C08.Proofs C08.Invariant C08.Names C08.Refine C08.Methods.
 Import ListNotations.
 Open Scope Z_scope.
 
@@ -96,6 +96,24 @@ Theorem C08_otto_define_keeps_invariant : forall o k d t, inv o -> otto_key_inde
   inv (fst (otto_def_array o k d t)).
 Proof. exact otto_def_array_inv. Qed.
 Print Assumptions C08_otto_define_keeps_invariant.
+
+(* THE METHODS.  The model of otto is the 15.4.4 step lists (as builtin_array.go codes them) around otto's own
+   clamps and otto's own arrayDefineOwnProperty; ES5 is the same step lists around the ES5 clamps and 15.4.5.1.
+   For every method of the table (join pop push reverse shift slice splice unshift indexOf lastIndexOf every some
+   forEach map filter reduce reduceRight concat), every receiver state (array or array-like, any length value,
+   holes, inherited index properties), every argument list and every callback script, exchanging the clamps
+   changes neither the result nor the receiver nor the callback log, whatever [[DefineOwnProperty]] is used;
+   C08_define_refines above relates the two [[DefineOwnProperty]] functions. *)
+Theorem C08_methods_refine :
+  otto = with_otto_clamps otto_def_array /\ es5 = with_es5_clamps def_array /\
+  forall df m args s,
+    match method (with_otto_clamps df) m, method (with_es5_clamps df) m with
+    | Some f1, Some f2 => f1 args s = f2 args s
+    | None, None => True
+    | _, _ => False
+    end.
+Proof. split; [reflexivity | split; [reflexivity | exact methods_clamps]]. Qed.
+Print Assumptions C08_methods_refine.
 
 (* ToString(n) of every integer n >= 0 is classified as the name KI n (so the 15.4.4 algorithms, which
    address elements by ToString(k), address exactly KI k), it is an array index exactly when n < 2^32 - 1,
